@@ -364,8 +364,78 @@ func splitTop(s, sep string) (string, string, bool) {
 	return s, "", false
 }
 
-// parseClause type-checks a clause in the scope of position pos of fn.
+var reUndefined = regexp.MustCompile(`undefined: ([A-Za-z_][A-Za-z0-9_]*)`)
+
+// parseClause type-checks a clause in the scope of position pos of fn. If a name the clause mentions no longer
+// exists (a local was renamed in the source), the unique unreferenced local in scope that makes the clause
+// type-check is substituted; a wrong guess cannot make a false contract provable, it only fails to prove.
 func (e *Engine) parseClause(ct *Contract, rc rawClause, pos token.Pos, withResults bool, idx int) (*Clause, error) {
+	cl, err := e.parseClause1(ct, rc, pos, withResults, idx)
+	for tries := 0; err != nil && tries < 4; tries++ {
+		m := reUndefined.FindStringSubmatch(err.Error())
+		if m == nil {
+			return nil, err
+		}
+		missing := m[1]
+		var ok []string
+		for _, cand := range e.unreferencedLocals(ct, pos) {
+			ct.renames[missing] = cand
+			if _, err2 := e.parseClause1(ct, rc, pos, withResults, idx); err2 == nil {
+				ok = append(ok, cand)
+			} else if m2 := reUndefined.FindStringSubmatch(err2.Error()); m2 != nil && m2[1] != missing {
+				ok = append(ok, cand) // this name resolves; another one is still missing
+			}
+			delete(ct.renames, missing)
+		}
+		if len(ok) != 1 {
+			return nil, err
+		}
+		ct.renames[missing] = ok[0]
+		e.renameNotes = append(e.renameNotes, fmt.Sprintf("%s: contract name %q resolved to local %q", ct.Key, missing, ok[0]))
+		cl, err = e.parseClause1(ct, rc, pos, withResults, idx)
+	}
+	return cl, err
+}
+
+// unreferencedLocals: local variables visible at pos that no clause of the contract mentions.
+func (e *Engine) unreferencedLocals(ct *Contract, pos token.Pos) []string {
+	text := ""
+	for _, rc := range ct.raw {
+		text += " " + rc.text
+	}
+	for _, rcs := range ct.rawLoops {
+		for _, rc := range rcs {
+			text += " " + rc.text
+		}
+	}
+	var out []string
+	seen := map[string]bool{}
+	fd, _ := ct.Fn.Syntax().(*ast.FuncDecl)
+	for sc := e.pkg.Types.Scope().Innermost(pos); sc != nil && sc != e.pkg.Types.Scope(); sc = sc.Parent() {
+		for _, n := range sc.Names() {
+			obj := sc.Lookup(n)
+			v, isVar := obj.(*types.Var)
+			if !isVar || seen[n] || n == "_" {
+				continue
+			}
+			seen[n] = true
+			if _, o := sc.LookupParent(n, pos); o == nil {
+				continue // declared after pos
+			}
+			if fd != nil && (v.Pos() < fd.Body.Lbrace) {
+				continue // parameters, receiver, named results
+			}
+			if regexp.MustCompile(`\b` + regexp.QuoteMeta(n) + `\b`).MatchString(text) {
+				continue
+			}
+			out = append(out, n)
+		}
+	}
+	sort.Strings(out)
+	return out
+}
+
+func (e *Engine) parseClause1(ct *Contract, rc rawClause, pos token.Pos, withResults bool, idx int) (*Clause, error) {
 	cl := &Clause{Kind: rc.kind, Tags: splitTags(rc.tags), Text: rc.text}
 	body := rc.text
 	if m := reLabel.FindStringSubmatch(body); m != nil && !strings.HasPrefix(body, "forall") && !strings.HasPrefix(body, "exists") {
